@@ -997,6 +997,45 @@ DETAIL["c20_position_present"] = lambda k, p: {"source": place(EOF_FAMILY[k], p)
 # end-of-stream sentinel (index -1), which the formatted message renders without line/column. DESIGN.md accepts a
 # negative index as "no position"; demanding a position for every error asked more than the check needs.
 
+# ---- the shared corpus: every location reported by analyze() / analyze_async() / analyze_tags points at its item ----
+from harness import corpus as _corpus  # noqa: E402
+
+_CENV = _corpus.make_env(XEnv)
+for _k in ("p", "q"):
+    SOURCES.setdefault(_k, _corpus.PARTIALS[_k])
+
+
+def _corpus_check(w2, w1, leaf, d):
+    if d != 0:
+        return None   # analysis does not depend on data
+    src = _corpus.source(w2, w1, leaf)
+    name = "corpus-%d-%d-%d" % (w2, w1, leaf)
+    SOURCES[name] = src
+    try:
+        t = _CENV.from_string(src, name=name)
+    except LiquidError:
+        return None
+    bad = []
+    for partials in (False, True):
+        try:
+            bad += [("analyze",) + b for b in analysis_problems(t.analyze(include_partials=partials))]
+            bad += [("analyze_async",) + b for b in analysis_problems(drive(t.analyze_async(include_partials=partials)))]
+        except LiquidError as e:
+            bad.append(("analyze raised", type(e).__name__))
+    ta = _CENV.analyze_tags_from_string(src, name=name)
+    for label, m in (("all_tags", ta.all_tags), ("tags", ta.tags), ("unclosed", ta.unclosed_tags), ("unexpected", ta.unexpected_tags), ("unknown", ta.unknown_tags)):
+        for tag, spans in m.items():
+            for sp in spans:
+                if not at_name(sp.template_name, sp.index, tag, "tag"):
+                    bad.append(("analyze_tags", label, tag, sp.template_name, sp.index))
+    return bad[:4] or None
+
+
+c20_corpus, _det = _corpus.mk_condition("c20_corpus", _corpus_check)
+DETAIL = globals().get("DETAIL", {})
+DETAIL["c20_corpus"] = _det
+CONDITIONS.append({"fn": "c20_corpus", "quick": 90, "thorough": 200, "sel_only": True, "bounds": _corpus.BOUNDS})
+
 ASSUMPTIONS = [
     "S1: expression / liquid-tag texts come from selector pools (24 + 8 rejected expressions, 13 + 3 liquid bodies); only the parent offset K is symbolic (unbounded int); the regular expressions see concrete text",
     "S1 oracle: tokens tile the text in order with only white space (and, in comment mode, '#' lines) between them - this fixes every offset uniquely",
